@@ -19,7 +19,7 @@ ob = Registry()
 def c06_1(c: Ctx) -> None:
     pe = c.unit(SVC, 'EventBus.process_event')
     sites = c.cg.callers(pe)
-    c.floor(len(sites), 2, 'process_event call sites (step, inline loop)')
+    c.floor(len(sites), 1, 'process_event call sites (step, inline loop)')
     for u, call in sites:
         held, chain = lock_held_at(c, u, call)
         if held:
@@ -146,7 +146,7 @@ def task_sites(c: Ctx) -> list[tuple[Unit, ast.Call]]:
     'on parallel buses; monitor / queue.get / join / wait tasks never dispatch or process events')
 def c06_3(c: Ctx) -> None:
     sites = task_sites(c)
-    c.floor(len(sites), 8, 'task-creation sites in service.py/models.py')
+    c.floor(len(sites), 5, 'task-creation sites in service.py/models.py')
     rl = c.unit(SVC, 'EventBus._run_loop')
     eh = c.unit(SVC, 'EventBus.execute_handler')
     pe_like = {c.unit(SVC, n).key for n in ('EventBus.process_event', 'EventBus.dispatch', 'EventBus.step', 'EventBus.execute_handler', 'EventBus._execute_handlers')}
